@@ -7,7 +7,8 @@
 (*                    multi-sector file exchange their stored bytes)                             *)
 (* quick: a covering subset of the configurations (every value of every dimension, every pair    *)
 (* crc x attrs, all four versions, signed), every offset, ONE rotating mutation kind per offset  *)
-(* (kind = (offset + seed) mod 4); thorough: all configurations, every offset x all four kinds.  *)
+(* (kind = (offset + seed) mod 4); thorough: all 108 configurations, every offset x two kinds    *)
+(* (flip0+set00 or flip7+setff, alternating with the offset);                                    *)
 (* plus "sigbytes" cases: generate_weak_signature over random byte strings and every bit flip.   *)
 EXTENDS IntegrityDefs, Json, IOUtils, SequencesExt
 
@@ -28,7 +29,7 @@ ArchiveCase(c) ==
     [kind |-> "archive", ver |-> c.ver, crc |-> c.crc, attrs |-> c.attrs, enc |-> c.enc, comp |-> c.comp,
      signed |-> c.signed,
      mkinds |-> <<"flip0", "flip7", "set00", "setff">>,
-     allkinds |-> Thorough,            \* FALSE: one rotating kind per offset
+     perbyte |-> IF Thorough THEN 2 ELSE 1,   \* how many of the four kinds per offset (rotating with offset + seed)
      stride |-> 1,
      zero4 |-> TRUE, swap |-> TRUE]
 
